@@ -166,6 +166,45 @@ func (w *world) judge(quiescent bool) {
 		}
 	}
 
+	// ---- what was observed: the order in which the events of each request
+	// happened (logical clock), as a signature of the interleaving
+	for _, r := range reqs {
+		type te struct {
+			t int64
+			n string
+		}
+		evl := []te{{r.beginT, "begin"}}
+		add := func(t int64, n string) {
+			if t > 0 {
+				evl = append(evl, te{t, n})
+			}
+		}
+		add(r.seenT, "seen")
+		add(r.cancelCall, "cancel")
+		add(r.cancelRet, "cancelled")
+		add(r.closedT, "closed")
+		if r.endT > 0 {
+			add(r.endT, "end:"+r.out)
+		}
+		nd := 0
+		for _, d := range dels {
+			if d.rq == r.rq && nd < 3 {
+				nd++
+				to := "handler"
+				if len(gotBy[d.rn]) > 0 {
+					to = "caller"
+				}
+				add(d.t, "reply("+d.typ+")→"+to)
+			}
+		}
+		sort.Slice(evl, func(i, j int) bool { return evl[i].t < evl[j].t })
+		names := make([]string, len(evl))
+		for i, e := range evl {
+			names[i] = e.n
+		}
+		c.Sig("order/%s/%s", r.via, strings.Join(names, "<"))
+	}
+
 	// ---- (b) conservation: every delivered reply is routed exactly once
 	for _, d := range dels {
 		if strings.HasPrefix(d.note, "receipt") {
